@@ -270,6 +270,14 @@ Definition html_target (x : cross_ref) : string :=
   end.
 
 (** ** The regenerated inventory (types; the data is in Gen/C20_inventory.v) *)
+(** one way of running a test case (`exactly CASE`, `--act`, `--keep`, `--suite S CASE`, implicit exactly.suite,
+    `exactly suite S`, `exactly symbol CASE`): the names probed in that way and those the program accepted *)
+Record mode_obs := {
+  mo_mode : string;
+  mo_probed : list string;
+  mo_accepted : list string
+}.
+
 Record phase_inv := {
   pi_name : string;
   pi_has_dict : bool;                       (* the program has a parser dictionary for the phase *)
@@ -279,7 +287,8 @@ Record phase_inv := {
   pi_help_struct : list string;             (* instruction_set.instruction_documentations, in order *)
   pi_help_keys : list string;               (* keys of name_2_description *)
   pi_help_rendered : list string;           (* parsed from `exactly help PHASE instructions` *)
-  pi_help_rendered_all : list string        (* parsed from `exactly help instructions`, under [PHASE] *)
+  pi_help_rendered_all : list string;       (* parsed from `exactly help instructions`, under [PHASE] *)
+  pi_modes : list mode_obs                  (* a complete use of each accepted name, in every other way of running a case *)
 }.
 
 Record suite_inv := {
@@ -297,7 +306,8 @@ Record entity_inv := {
   ei_type : string;
   ei_accepted : list string;                (* what the running program accepts / has *)
   ei_help_struct : list string;             (* entities_help.all_entities *)
-  ei_help_rendered : list string            (* parsed from `exactly help TYPE` *)
+  ei_help_rendered : list string;           (* parsed from `exactly help TYPE` *)
+  ei_modes : list mode_obs                  (* acceptance in every other way of running a case (where that means something) *)
 }.
 
 Record help_run := {
